@@ -167,6 +167,9 @@ func (l *AbstractListener) ConnectDirectly(conn net.Conn) bool {
 	direct, err = net.Dial(forward.Scheme, forward.Host)
 	if err == nil {
 		direct = streams.NewNamedConnection(direct, fmt.Sprintf("%v", forward))
+		// PipeData closes the side opposite to the one that ended: both ends are ours to close
+		defer streams.TryClose(direct)
+		defer streams.TryClose(conn)
 		err = streams.PipeData(conn, direct)
 		if err != nil {
 			err = errors.WithStack(err)
